@@ -628,10 +628,12 @@ UPGRADER:
 			switch c {
 			case ' ':
 			case '\r':
-				if p.headerValue == "" {
-					p.headerValue = string(data[start:i])
+				// empty trailer value
+				if len(p.trailer) == 0 {
+					return fmt.Errorf("invalid trailer '%v'", p.headerKey)
 				}
-				p.Processor.OnTrailerHeader(p, p.headerKey, p.headerValue)
+				delete(p.trailer, p.headerKey)
+				p.Processor.OnTrailerHeader(p, p.headerKey, "")
 				p.headerKey = ""
 				p.headerValue = ""
 
@@ -646,13 +648,9 @@ UPGRADER:
 			}
 		case stateBodyTrailerHeaderValue:
 			switch c {
-			case ' ':
-				if p.headerValue == "" {
-					p.headerValue = string(data[start:i])
-				}
 			case '\r':
 				if p.headerValue == "" {
-					p.headerValue = string(data[start:i])
+					p.headerValue = strings.TrimRight(string(data[start:i]), " ")
 				}
 				if len(p.trailer) == 0 {
 					return fmt.Errorf("invalid trailer '%v'", p.headerKey)
